@@ -545,7 +545,7 @@ pub fn decode_ops(t: &mut Tape, max_elems: usize) -> Vec<IOp> {
             _ => t.u64() as usize,
         }
     };
-    while !t.exhausted() && elems < max_elems && ops.len() < 400 {
+    while !t.exhausted() && elems < max_elems.max(1) && ops.len() < 400 {
         match t.below(12) {
             0 | 1 | 2 => {
                 // arithmetic run, possibly starting at 0
@@ -558,7 +558,7 @@ pub fn decode_ops(t: &mut Tape, max_elems: usize) -> Vec<IOp> {
                     4 => usize::MAX / 3,
                     _ => special(t),
                 };
-                let n = t.len(6, 300);
+                let n = if t.chance(6) { [65535usize, 65536, 65537, 70000][t.below(4)] } else { t.len(6, 300) };
                 let mut xs = Vec::with_capacity(n);
                 let mut v = start;
                 for _ in 0..n {
@@ -566,7 +566,9 @@ pub fn decode_ops(t: &mut Tape, max_elems: usize) -> Vec<IOp> {
                     v = v.wrapping_add(stride);
                 }
                 elems += n;
-                if t.bool() {
+                // very long runs only as one extend (a per-element push re-checks the whole
+                // container every time: quadratic)
+                if n > 1000 || t.bool() {
                     ops.push(IOp::Extend(xs));
                 } else {
                     ops.extend(xs.into_iter().map(IOp::Push));
